@@ -23,6 +23,13 @@ package) reaches an estimator root, it records
   of ``self`` / ``super()``), whether ``self._is_fitted = True`` has been executed on every completing
   path (``set`` / ``unset`` / ``some``; through calls on ``self`` / ``super()`` too) and whether such
   an assignment is followed by anything but ``return`` (``early``); ``FA`` abstract, ``FX`` scikit-learn's;
+* for ``set_params`` written in the package (own or inherited; the composites): ``PV owner attr`` -
+  every completing path reaches the name validation, i.e. a call ``super().set_params(**kw)`` that
+  resolves to scikit-learn's, or a call on ``self`` / ``super()`` of a method of the table that itself
+  validates on every completing path (``_set_params``), with the caller's ``**`` mapping (never rebound)
+  passed on as ``**``; ``attr`` = the constant first argument of the ``_set_params`` delegation;
+  ``PR owner what`` - some path returns (or falls off the end) before validation; ``PA`` abstract;
+  classes that inherit scikit-learn's ``set_params`` are ``PX``;
 * the three base facts of ``sktime/base/_base.py``: the flag value ``BaseEstimator.__init__`` stores,
   that the ``is_fitted`` property returns that flag, and the condition under which
   ``check_is_fitted`` raises (translated to a Gallina boolean function) together with the resolved
@@ -608,6 +615,34 @@ class Table:
         flag = "set" if flags == {True} else ("unset" if flags == {False} else "some")
         return ("FF", self.key[owner], ret, flag, an.early)
 
+    # ---------------------------------------------------------------- set_params facts
+    def setparams_status(self, k):
+        """('PX',) scikit-learn's | ('PA', owner) | ('PV', owner, attr) | ('PR', owner, what)."""
+        r = self.find_method(k, "set_params")
+        if r is None or r[0] == "ext":
+            return ("PX",)
+        return self._validates(k, r, ())
+
+    def _validates(self, k, r, stack):
+        owner, fn = r
+        if (owner, fn.name) in stack:
+            return ("PR", self.key[owner], "recursion before validation")
+        body = list(fn.body)
+        if body and isinstance(body[0], ast.Expr) and isinstance(body[0].value, ast.Constant) \
+                and isinstance(body[0].value.value, str):
+            body = body[1:]
+        if all(isinstance(s, (ast.Raise, ast.Pass)) for s in body):
+            return ("PA", self.key[owner])
+        if fn.args.kwarg is None:
+            return ("PR", self.key[owner], "%s has no ** parameter" % fn.name)
+        an = _ValidateAnalysis(self, k, owner, fn, stack + ((owner, fn.name),))
+        g = an.block(body, False)
+        if g is False and an.bad is None:
+            an.bad = "falls off the end of %s before the names are validated" % fn.name
+        if an.bad is not None:
+            return ("PR", self.key[owner], an.bad)
+        return ("PV", self.key[owner], an.attr or "")
+
     # ---------------------------------------------------------------- base facts
     def base_facts(self):
         """Facts of sktime.base._base.BaseEstimator that the fitted-state model rests on."""
@@ -748,7 +783,7 @@ class Table:
         mutates = self._mutation_facts(k)
         return {"key": self.key[k], "module": k[0], "name": k[1], "bases": bases,
                 "init": self._init_facts(k), "methods": methods, "path": c["path"],
-                "mutates": mutates, "fit": self.fit_status(k),
+                "mutates": mutates, "fit": self.fit_status(k), "setparams": self.setparams_status(k),
                 "abstract": k[1].startswith("_") or k[1].startswith("Base")}
 
 
@@ -968,6 +1003,134 @@ class _GuardAnalysis:
         return g
 
 
+class _ValidateAnalysis:
+    """Path-sensitive walk of a set_params-like body.  Path state: have the names been validated
+    (False / True)?  Validation = a call, with the function's own ** mapping passed on as **, of
+    `super().<same name or set_params>` resolving to scikit-learn, or of a method of the table (on
+    self / super()) that validates on every completing path.  Rebinding the ** mapping makes the
+    later calls worthless.  `bad` = the first way a path completes unvalidated."""
+
+    def __init__(self, table, k, owner, fn, stack):
+        self.t, self.k, self.owner, self.fn, self.stack = table, k, owner, fn, stack
+        self.kw = fn.args.kwarg.arg
+        self.rebound = False
+        self.bad = None
+        self.attr = None
+
+    @staticmethod
+    def join(a, b):
+        if a == BOTTOM:
+            return b
+        if b == BOTTOM:
+            return a
+        return a and b
+
+    def block(self, stmts, g):
+        for s in stmts:
+            if g == BOTTOM:
+                break
+            g = self.stmt(s, g)
+        return g
+
+    def validating_call(self, n):
+        f = n.func
+        if not isinstance(f, ast.Attribute):
+            return False
+        recv_self = isinstance(f.value, ast.Name) and f.value.id == "self"
+        recv_super = (isinstance(f.value, ast.Call) and isinstance(f.value.func, ast.Name)
+                      and f.value.func.id == "super")
+        if not (recv_self or recv_super):
+            return False
+        passes = any(kw.arg is None and isinstance(kw.value, ast.Name) and kw.value.id == self.kw
+                     for kw in n.keywords)
+        if not passes or self.rebound:
+            return False
+        r = self.t.find_method(self.k, f.attr, after=self.owner if recv_super else None)
+        if r is None or r[0] == "ext":
+            # not written in the package: scikit-learn's BaseEstimator.set_params validates every name
+            return f.attr == "set_params"
+        st = self.t._validates(self.k, r, self.stack)
+        if st[0] == "PV":
+            if n.args and isinstance(n.args[0], ast.Constant) and isinstance(n.args[0].value, str) \
+                    and self.attr is None:
+                self.attr = n.args[0].value
+            return True
+        return False
+
+    def expr(self, e, g):
+        if e is None or g is True:
+            return g
+        for n in ast.walk(e):
+            if isinstance(n, ast.Call) and self.validating_call(n):
+                return True
+        return g
+
+    def stmt(self, s, g):
+        if isinstance(s, (ast.FunctionDef, ast.AsyncFunctionDef, ast.ClassDef, ast.Import,
+                          ast.ImportFrom, ast.Pass, ast.Global, ast.Nonlocal, ast.Break, ast.Continue)):
+            return g
+        if isinstance(s, ast.Return):
+            g = self.expr(s.value, g)
+            if g is False and self.bad is None:
+                self.bad = "line %d: `%s` before the names are validated" % (
+                    s.lineno - self.fn.lineno + 1, ast.unparse(s)[:50])
+            return BOTTOM
+        if isinstance(s, ast.Raise):
+            return BOTTOM
+        if isinstance(s, ast.If):
+            g = self.expr(s.test, g)
+            return self.join(self.block(s.body, g), self.block(s.orelse, g))
+        if isinstance(s, (ast.For, ast.AsyncFor)):
+            g = self.expr(s.iter, g)
+            self.note_target(s.target)
+            gb = self.block(s.body, g)
+            ge = self.block(s.orelse, g) if s.orelse else g
+            return self.join(g if gb == BOTTOM else self.join(g, gb), ge)
+        if isinstance(s, ast.While):
+            g = self.expr(s.test, g)
+            gb = self.block(s.body, g)
+            return g if gb == BOTTOM else self.join(g, gb)
+        if isinstance(s, (ast.With, ast.AsyncWith)):
+            for it in s.items:
+                g = self.expr(it.context_expr, g)
+                if it.optional_vars is not None:
+                    self.note_target(it.optional_vars)
+            return self.block(s.body, g)
+        if isinstance(s, ast.Try):
+            gb = self.block(s.body, g)
+            outs = [self.block(s.orelse, gb) if gb != BOTTOM else BOTTOM]
+            for h in s.handlers:
+                outs.append(self.block(h.body, g))      # the validating call may be what raised
+            r = BOTTOM
+            for o in outs:
+                r = self.join(r, o)
+            if s.finalbody:
+                r2 = self.block(s.finalbody, g if r == BOTTOM else r)
+                return BOTTOM if r == BOTTOM else r2
+            return r
+        if isinstance(s, ast.Assign):
+            g = self.expr(s.value, g)
+            for t in s.targets:
+                self.note_target(t)
+            return g
+        if isinstance(s, (ast.AugAssign, ast.AnnAssign)):
+            g = self.expr(s.value, g)
+            self.note_target(s.target)
+            return g
+        if isinstance(s, ast.Delete):
+            for t in s.targets:
+                self.note_target(t)
+            return g
+        if isinstance(s, (ast.Expr, ast.Assert)):
+            return self.expr(s.value if isinstance(s, ast.Expr) else s.test, g)
+        raise Unsupported("%s.%s.%s: statement %s" % (self.owner + (self.fn.name, type(s).__name__)))
+
+    def note_target(self, t):
+        for el in ast.walk(t):
+            if isinstance(el, ast.Name) and el.id == self.kw:
+                self.rebound = True
+
+
 class _FitAnalysis:
     """Path-sensitive walk of a fit-like body.  Path state: has `self._is_fitted = True` been
     executed (True / False / "some").  Collects per completing path what is returned and the state."""
@@ -1129,6 +1292,14 @@ def _fit(f):
     return "(FF %s %s %s %s)" % (cstr(f[1]), cstr(f[2][:80]), cstr(f[3]), "true" if f[4] else "false")
 
 
+def _setp(p):
+    if p[0] == "PX":
+        return "PX"
+    if p[0] == "PA":
+        return "(PA %s)" % cstr(p[1])
+    return "(%s %s %s)" % (p[0], cstr(p[1]), cstr(p[2][:90]))
+
+
 def _guard(g):
     if g[0] == "GU":
         return "(GU %s %s)" % (cstr(g[1]), cstr(g[2][:60]))
@@ -1156,7 +1327,7 @@ def to_coq(table):
         muts = "[%s]" % "; ".join("(%s, %s, %s)" % (cstr(m), cstr(o), cstr(q)) for m, o, q in r["mutates"])
         rows.append(" Row %s %s [%s]\n  %s\n  %s\n  %s\n  %s" % (
             cstr(r["key"]), cstr(r["module"]), "; ".join(cstr(b) for b in r["bases"]), init, meths,
-            muts, _fit(r["fit"])))
+            muts, _fit(r["fit"]) + " " + _setp(r["setparams"])))
     bf = table.base_facts()
     base = (
         "\n(* sktime/base/_base.py BaseEstimator: flag stored by __init__, is_fitted returns the flag,\n"
@@ -1241,6 +1412,13 @@ def deviations(table, validators=()):
             sorted(mut, key=lambda d: (d["cls"], d["method"], d["param"])))
 
 
+def setparams_deviations(table):
+    """Rows whose set_params (written in the package) can complete without validating the names."""
+    return sorted(
+        [{"cls": r["key"], "module": r["module"], "owner": r["setparams"][1], "what": r["setparams"][2][:90]}
+         for r in table.rows.values() if r["setparams"][0] == "PR"], key=lambda d: d["cls"])
+
+
 def fit_deviations(table):
     """Python mirror of Table.v fit_ok with an empty exception list: rows whose fit (own or inherited)
     does not return self on every completing path with the fitted flag set last."""
@@ -1267,4 +1445,6 @@ if __name__ == "__main__":
         print("MUT  ", d["cls"], d["method"], d["owner"], d["param"])
     for d in fit_deviations(t):
         print("FIT  ", d["cls"], d["owner"], d["returns"], d["flag"], d["early"])
+    for d in setparams_deviations(t):
+        print("SETP ", d["cls"], d["owner"], d["what"])
     print("BASE ", t.base_facts())
